@@ -200,6 +200,10 @@ class Session(object):
     def do_RmIsohybrid(self, a):
         self.iso.rm_isohybrid()
 
+    def do_ModifyInPlace(self, a):
+        data = self.tab.blobdata[a['blob']]
+        self.iso.modify_file_in_place(io.BytesIO(data), len(data), self._p('iso', a['p']))
+
     def do_DuplicatePvd(self, a):
         self.iso.duplicate_pvd()
 
